@@ -60,6 +60,7 @@ def judge(case) -> Verdict:
     port_nr, protocol_nr = bool(case.get("port_nr")), bool(case.get("protocol_nr"))
     if platform not in ("ios", "nxos"):
         raise Invalid()
+    G.validate_rec(rec, platform)
     try:
         text = G.render_ace(rec, platform, version)
         want = G.rec_rule(rec)
